@@ -653,6 +653,13 @@ func c20LayerOfRaw(v interface{}) c20Layer {
 	return c20LayerOf(c20FlatSorted(n))
 }
 
+func c20LayerOfApps(apps []interface{}) c20Layer {
+	if len(apps) == 0 {
+		return c20Layer{"0": 0}
+	}
+	return c20LayerOf(c20FlatSorted(apps))
+}
+
 func c20ParsePath(s string) []int {
 	var p []int
 	for _, t := range strings.Fields(s) {
@@ -1232,6 +1239,40 @@ func c20EmitSection(h *vHarness, s int, raw c20SecRaw, fail func(string, string,
 		fail("C20:json-glue-assumption", "section %s: %d node entries parsed, %d generated", c20SecNames[s], len(nodes), len(raw.nodes))
 		h.Op("sec %d 1 0", s)
 		return
+	}
+	// the statement's "sets the field" (c20Norm on the raw tree) must be what the repo's types + encoding/json
+	// read from the text, layer by layer (also for entries that never get selected)
+	if raw.state == 2 {
+		glue := func(who string, got []c20Entry, want c20Layer) {
+			g := c20LayerOf(c20DropZeroTnb(got))
+			if s == 4 && len(want) == 0 {
+				want = c20Layer{"0": 0}
+			}
+			if !c20LayerEq(g, want) {
+				ds := c20Diffs(g, want)
+				fail("C20:json-glue-assumption", "section %s %s: parsed form and raw tree disagree on which fields are set: %s %s",
+					c20SecNames[s], who, c20PathNames(ds[0].p), ds[0].what)
+			}
+		}
+		if s == 4 {
+			glue("applications", cluster, c20LayerOfApps(raw.apps))
+			for i, no := range nodes {
+				glue(fmt.Sprintf("entry %d", i), no.fl, c20LayerOfApps(raw.nodes[i].apps))
+			}
+		} else {
+			if hasCluster {
+				glue("clusterStrategy", cluster, c20LayerOfRaw(raw.cluster))
+			} else if len(c20LayerOfRaw(raw.cluster)) > 0 {
+				fail("C20:json-glue-assumption", "section %s: clusterStrategy sets fields but parsed as nil", c20SecNames[s])
+			}
+			for i, no := range nodes {
+				if no.has {
+					glue(fmt.Sprintf("entry %d", i), no.fl, c20LayerOfRaw(raw.nodes[i].strat))
+				} else if len(c20LayerOfRaw(raw.nodes[i].strat)) > 0 {
+					fail("C20:json-glue-assumption", "section %s entry %d sets fields but parsed as nil", c20SecNames[s], i)
+				}
+			}
+		}
 	}
 	h.Op("sec %d 2 %d", s, vB(hasCluster))
 	for _, e := range cluster {
